@@ -213,9 +213,9 @@ impl FaultKind {
     pub fn applies_to(&self, op: OpKind) -> bool {
         match self {
             FaultKind::Error => true,
-            FaultKind::ShortThenError { .. } | FaultKind::Interrupted => {
-                matches!(op, OpKind::Read | OpKind::Write)
-            }
+            FaultKind::ShortThenError { .. } => matches!(op, OpKind::Read | OpKind::Write),
+            // C16 injects EINTR on transfers only; C15 also on seek/flush inside finalize
+            FaultKind::Interrupted => true,
             FaultKind::WriteZero | FaultKind::NoSpace => op == OpKind::Write,
             FaultKind::Mutate(_) => true,
         }
